@@ -70,10 +70,10 @@ Proof.
   split; [vm_compute; reflexivity|]. split.
   - split.
     + intros l Hl. assert (H : Forall (fun l => Pipeline.weight l = ∅) (procs ex_state)).
-      { vm_compute. repeat constructor. }
+      { apply (bool_decide_unpack _). vm_compute. exact I. }
       rewrite Forall_forall in H. exact (H l Hl).
     + intros ch Hch. assert (H : Forall (fun ch : chan Pipeline.val => cbuf ch = []) (chans ex_state)).
-      { vm_compute. repeat constructor. }
+      { apply (bool_decide_unpack _). vm_compute. exact I. }
       rewrite Forall_forall in H. exact (H ch Hch).
   - vm_compute. reflexivity.
 Qed.
